@@ -24,6 +24,8 @@ def main(argv=None) -> int:
     os.environ.setdefault("MPLBACKEND", "Agg")
     os.environ.setdefault("OMP_NUM_THREADS", "1")
     os.environ.setdefault("OPENBLAS_NUM_THREADS", "1")
+    from .tlc import sweep_scratch
+    sweep_scratch()
     try:
         mod = importlib.import_module(f"harness.{args.prop.lower()}")
     except ModuleNotFoundError:
